@@ -216,6 +216,9 @@ FamOps(f) ==
     [] f = "manputbad" -> FManPutBad
     [] f = "manputdq" -> {o \in FManPutDQ : Refs(o.body) \subseteq blob[o.repo]}
     [] f = "manputdig" -> {o \in FManPut : o.ref.k = "dig"}
+    \* a manifest the repository holds, whose upload has aged, is pushed again by digest (it is recent again; when it is only
+    \* tracked as the child of an index a collection must still find what it references)
+    [] f = "manrepush" -> {o \in FManPut : o.ref.k = "dig" /\ o.ref.v \in DOMAIN man[o.repo] /\ o.ref.v \notin young[o.repo]}
     \* (GC scenarios only) the blob of an indexed manifest is deleted through the blob API: an index entry without content
     \* (G2gc: not the blob of an index whose children would be orphaned when the collection prunes its entry: finding child-orphan-gc)
     [] f = "blobdelman" -> {o \in OpsBlobDel : o.dig \in DOMAIN man[o.repo] /\ o.dig \in blob[o.repo] /\ ~IsArt(o.dig) /\ G2gc(o.repo, o.dig)}
@@ -266,7 +269,7 @@ Weights ==
                              "mandel", "mandel", "gc", "gc", "gc", "blobdel">>
     \* pushes, deletes and re-pushes of content whose first upload has aged, restarts (a directory store collects on Close)
     [] Profile = "pushage" -> <<"pushblob", "pushblob", "repushblob", "repushblob", "manput", "manput", "manput", "mandel", "mandel",
-                                "age", "age", "restart", "restart", "blobdel">>
+                                "age", "age", "restart", "restart", "blobdel", "manrepush">>
     [] Profile = "pull" -> <<"pushblob", "pushblob", "pushblob", "manput", "manput", "manput", "manput", "manput", "mangetchild",
                              "mangetchild", "mangetchild", "manget", "manget", "blobget", "mandel", "restart", "repushblob">>
     [] Profile = "tags" -> <<"pushblob", "pushblob", "manput", "manput", "manput", "manput", "mandel", "mandel",
@@ -276,7 +279,7 @@ Weights ==
     [] Profile = "refs" -> <<"pushblob", "pushblob", "manput", "manput", "manput", "manput", "mandel", "mandel", "restart">>
     [] Profile = "gc" -> <<"pushblob", "pushblob", "repushblob", "manput", "manput", "manput", "manput", "manput", "mandel", "mandel",
                            "blobdel", "gc", "gc", "gcsubj", "gcsubj", "gcsubj", "age", "age", "restart", "restart", "pushmanblob",
-                           "blobdelman", "blobdelman", "manputdig", "manputdig">>
+                           "blobdelman", "blobdelman", "manputdig", "manputdig", "manrepush", "manrepush">>
     [] Profile = "layout" -> <<"pushblob", "pushblob", "manput", "manput", "manput", "manputdig", "manputdig", "mandel", "mandel", "blobdel",
                                "gc", "gc", "age", "restart", "restart", "uppost", "uppatch", "upput", "updel">>
     [] Profile = "ro" -> <<"pushblob", "pushblob", "manput", "manput", "manput", "mandel", "reconf", "reconf",
